@@ -25,7 +25,7 @@ use tari_bulletproofs_plus::{
 };
 
 type P = RistrettoPoint;
-pub const NCALLS: usize = 11;
+pub const NCALLS: usize = 12;
 
 fn digest(parts: &[&[u8]]) -> String {
     let mut h = Sha3_256::new();
@@ -61,6 +61,7 @@ struct Made {
 
 fn make(params: RangeParameters<P>, m: usize, t: usize, seeded: bool, rng_seed: u64) -> Made {
     let n = params.bit_length();
+    let n = n.min(62); // values below 2^62 so the arithmetic below cannot overflow
     let blinds: Vec<Vec<Scalar>> = (0..m).map(|j| (0..t).map(|k| Scalar::from(1000 + 17 * j as u64 + k as u64)).collect()).collect();
     let vals: Vec<u64> = (0..m).map(|j| (5 + 3 * j as u64) % (1u64 << n.min(63))).collect();
     let cs: Vec<P> = (0..m).map(|j| params.pc_gens().commit(&Scalar::from(vals[j]), &blinds[j]).unwrap()).collect();
@@ -141,6 +142,13 @@ pub fn call_opt(c: usize, shared: Option<&RangeParameters<P>>) -> String {
                 Ok(p) => verify_digest(&[a.stmt, b.stmt], &[a.proof, p], VerifyAction::RecoverAndVerify),
                 Err(e) => digest(&[b"decode", format!("{:?}", e).as_bytes()]),
             }
+        },
+        11 => {
+            // recovery for a larger proof made under the SAME seed as call 5/6's smaller one (same degree, more rounds)
+            let a = make(params(64, 1, 1), 1, 1, true, 13);
+            let v1 = verify_digest(std::slice::from_ref(&a.stmt), std::slice::from_ref(&a.proof), VerifyAction::RecoverOnly);
+            let v2 = verify_digest(std::slice::from_ref(&a.stmt), std::slice::from_ref(&a.proof), VerifyAction::RecoverAndVerify);
+            digest(&[v1.as_bytes(), v2.as_bytes()])
         },
         _ => {
             let a = make(shared.expect("shared parameter object").clone(), 2, 2, false, 11);
